@@ -317,6 +317,13 @@ impl Sim {
         let keys: Vec<Vec<u8>> = snap.keys().cloned().collect();
         self.world.0.borrow_mut().names.root_keys = keys.clone();
         self.model.names.root_keys = keys;
+        // where the next plain instantiation will land (any code: the generators do not look at it, except
+        // the adversarial one, for which this is only a guess)
+        let code0 = self.model.names.codes.first().copied().unwrap_or(1);
+        let n = self.model.s.contracts.len() as u64;
+        let next = self.model.addr_fallback.as_ref().and_then(|f| f(code0, n, None));
+        self.world.0.borrow_mut().names.next_addr = next.clone();
+        self.model.names.next_addr = next;
         // the model's view of the slots must equal the world's (both out of band)
         snap
     }
@@ -812,7 +819,11 @@ impl Sim {
             }
             Op::Multi { sender, msgs } => self.exec_multi(*sender, msgs, true),
             Op::WasmSudo { target, node, via_router } => self.op_wasm_sudo(target, node, *via_router),
-            Op::Mint { to, coins } => self.op_mint(to, coins),
+            Op::Mint { to, coins } => {
+                let cs = self.model.names.coins(coins, &|_| 0);
+                self.op_mint(to, cs)
+            }
+            Op::MintRaw { to, coins } => self.op_mint(to, coins.iter().map(|(d, m, sh)| (d.clone(), (*m as u128) << (*sh).min(127))).collect()),
             Op::HInstantiate { sender, code, slot, node, funds, label, admin, salt } => {
                 let m = MsgSpec::Inst { code: *code, slot: *slot, node: Box::new(node.clone()), funds: funds.clone(), label: label.clone(), admin: admin.clone(), salt: salt.clone() };
                 self.op_helper(*sender, &m)
@@ -992,10 +1003,9 @@ impl Sim {
         self.settle(what, &before, real, |m| m.top_level_sudo(&addr, node).map(|r| vec![r]), true, &[])
     }
 
-    fn op_mint(&mut self, to: &Target, coins: &[CoinSpec]) -> bool {
+    fn op_mint(&mut self, to: &Target, cs: Vec<(String, u128)>) -> bool {
         let before = self.pre_step();
         let addr = self.model.names.target(to, "");
-        let cs = self.model.names.coins(coins, &|_| 0);
         // keep every balance far below 2^120 (the quantifier excludes overflow)
         let app = &mut self.app;
         let real = guarded(|| app.sudo(SudoMsg::Bank(BankSudo::Mint { to_address: addr.clone(), amount: to_coins(&cs) })).map(|r| vec![r]));
@@ -1087,6 +1097,8 @@ impl Sim {
         let creator_addr = self.sender(creator);
         let ca = Addr::unchecked(creator_addr.clone());
         let max_id = self.model.codes.keys().last().copied().unwrap_or(0);
+        // the sentinel id u64::MAX - 1 means "exactly the id the next automatic assignment would give"
+        let id = id.map(|i| if i == u64::MAX - 1 { max_id.saturating_add(1) } else { i });
         let app = &mut self.app;
         self.stats.steps += 1;
         let (real, expected): (RealOut<u64>, Result<u64, ()>) = match id {
